@@ -142,7 +142,7 @@ impl Property for C01 {
     }
     fn cases(&self, tier: Tier) -> usize {
         match tier {
-            Tier::Quick => 40_000,
+            Tier::Quick => 150_000,
             Tier::Thorough => 1_000_000,
         }
     }
